@@ -117,10 +117,43 @@ fn gen_disk_stall(rng: &mut Rng) -> LogWorldScenario {
     LogWorldScenario { spec, script, shows: vec![(vec![], vec![], true, true)], listener: None }
 }
 
+/// A group of 66-80 tasks that are all alive at once; every task writes on both streams, waits while all the
+/// others take their turn, and writes again (more than 128 archives are being written in turns).
+fn gen_many_alive(rng: &mut Rng) -> LogWorldScenario {
+    let nt = rng.range(66, 80);
+    let mut targets = vec![];
+    let mut cmd_files = vec![];
+    for i in 0..nt {
+        let path = format!("t{:02}", i);
+        cmd_files.push(CmdFile { target: path.clone(), command: "build".into(), rel: WorldSpec::default_cmd_rel(&path, "build"), exec: true, broken: false });
+        targets.push(TargetSpec { path, ..Default::default() });
+    }
+    let spec = WorldSpec { targets, cmd_files, files: vec![], sequences: vec![], max_retained_runs: 2, gitignore: vec![], git: false, lock_host: None, default_ports: 0, omit_max_retained: false };
+    let mut script = RunScript::simple(RunOpts { commands: vec!["build".into()], ..Default::default() });
+    let rounds = rng.range(2, 3);
+    for cf in &spec.cmd_files {
+        let mut outs = vec![];
+        for r in 0..rounds {
+            for fd in [1u8, 2u8] {
+                outs.push(OutStep { fd, hex: hex(format!("build@{} fd{} round {} {}\n", cf.target, fd, r, "m".repeat(rng.below(50))).as_bytes()), pause_ms: 0, close: false });
+            }
+        }
+        script.behav.push(Behav { command: "build".into(), target: cf.target.clone(), outs, code: 0, exit_pause_ms: 0, early_exit: false, hold_pipes_ms: 0, outs_again: vec![] });
+    }
+    script.strategy = Strategy::RoundRobin;
+    script.flush_ms = Some(5);
+    script.workers = Some(*rng.pick(&[2u32, 4, 16]));
+    script.rand_seed = Some(rng.next_u64() % 1_000_000);
+    LogWorldScenario { spec, script, shows: vec![(vec![], vec![], true, true)], listener: None }
+}
+
 fn gen_log_world(seed: u64, idx: usize) -> LogWorldScenario {
     let mut rng = Rng::new(scenario_seed(seed, "C08w", idx));
     if rng.chance(1, 40) {
         return gen_disk_stall(&mut rng);
+    }
+    if rng.chance(1, 30) {
+        return gen_many_alive(&mut rng);
     }
     let nt = if rng.chance(1, 4) { rng.range(8, 16) } else { rng.range(1, 5) };
     let cmds: Vec<String> = if rng.chance(1, 2) { vec!["build".into()] } else { vec!["build".into(), "test".into()] };
